@@ -53,13 +53,13 @@ fn main() {
         c11::good_notify(),
         c11::good_isr(),
         c11::good_device(),
-        VCap { cap_id: 9, cap_len: 20, cfg_type: 5, bar: 0, offset: 0, length: 0, mult: 0 },
-        VCap { cap_id: 0x11, cap_len: 3, cfg_type: 0x80, bar: 0, offset: 0, length: 0, mult: 0 },
-        VCap { cap_id: 9, cap_len: 8, cfg_type: 1, bar: GOOD_BAR, offset: 0x800, length: 0x38, mult: 0 },
-        VCap { cap_id: 9, cap_len: 16, cfg_type: 2, bar: GOOD_BAR, offset: 0x2800, length: 0x100, mult: 2 },
-        VCap { cap_id: 9, cap_len: 16, cfg_type: 1, bar: GOOD_BAR, offset: 0x800, length: 0x40, mult: 0 },
-        VCap { cap_id: 9, cap_len: 20, cfg_type: 2, bar: GOOD_BAR, offset: 0x2800, length: 0x80, mult: 8 },
-        VCap { cap_id: 9, cap_len: 16, cfg_type: 4, bar: 1, offset: 0x10, length: 0x20, mult: 0 },
+        VCap { cap_id: 9, cap_len: 20, cfg_type: 5, bar: 0, offset: 0, length: 0, mult: 0, idpad: 0 },
+        VCap { cap_id: 0x11, cap_len: 3, cfg_type: 0x80, bar: 0, offset: 0, length: 0, mult: 0, idpad: 0 },
+        VCap { cap_id: 9, cap_len: 8, cfg_type: 1, bar: GOOD_BAR, offset: 0x800, length: 0x38, mult: 0, idpad: 0 },
+        VCap { cap_id: 9, cap_len: 16, cfg_type: 2, bar: GOOD_BAR, offset: 0x2800, length: 0x100, mult: 2, idpad: 0 },
+        VCap { cap_id: 9, cap_len: 16, cfg_type: 1, bar: GOOD_BAR, offset: 0x800, length: 0x40, mult: 0, idpad: 0 },
+        VCap { cap_id: 9, cap_len: 20, cfg_type: 2, bar: GOOD_BAR, offset: 0x2800, length: 0x80, mult: 8, idpad: 0 },
+        VCap { cap_id: 9, cap_len: 16, cfg_type: 4, bar: 1, offset: 0x10, length: 0x20, mult: 0, idpad: 0 },
     ];
     let maxlen = if thorough { 6 } else { 5 };
     let mut frontier: Vec<Vec<VCap>> = vec![vec![]];
@@ -167,6 +167,26 @@ fn main() {
             acc.case("bar-index", &good_bars(), &caps, false);
         }
     }
+    // Part D'': the `id` and padding bytes of a capability. They do not take part in the choice
+    // ("first sufficiently long capability of each type"): each capability in turn gets non-zero
+    // values there, with a decoy of the same type (another, also valid window) behind it.
+    for k in 0..4 {
+        for idpad in [0x0000_01u32, 0x0000_ff, 0x00aa_00, 0x5500_00, 0xffff_ff] {
+            let mut caps = base.to_vec();
+            caps[k].idpad = idpad;
+            let mut decoy = base[k];
+            decoy.offset = match k {
+                0 => 0x800,
+                1 => 0x3800,
+                2 => 0x1800,
+                _ => 0x2800,
+            };
+            decoy.length = decoy.length.min(0x800);
+            caps.push(decoy);
+            acc.case("cap-id-padding", &good_bars(), &caps, false);
+            acc.case("cap-id-padding", &good_bars(), &caps, true);
+        }
+    }
     // Part D': the last BAR slot. A 32-bit memory BAR there is usable; the 64-bit type encoding
     // there has no upper half (the next register is not a BAR), so a window in it is invalid.
     for k in 0..4 {
@@ -205,10 +225,10 @@ fn main() {
         (
             vec![(2, BarKind::Mem32 { size: 0x1000, prefetch: false, below_1m: false }, 0xfe00_0000), (4, BarKind::Mem64 { size: 1 << 33, prefetch: false }, 0x10_0000_0000)],
             vec![
-                VCap { cap_id: 9, cap_len: 16, cfg_type: 1, bar: 2, offset: 0xfc8, length: 0x38, mult: 0 },
-                VCap { cap_id: 9, cap_len: 20, cfg_type: 2, bar: 4, offset: 0xffff_f000, length: 0x1000, mult: 0x100 },
-                VCap { cap_id: 9, cap_len: 16, cfg_type: 3, bar: 2, offset: 0x7, length: 1, mult: 0 },
-                VCap { cap_id: 9, cap_len: 16, cfg_type: 4, bar: 4, offset: 0x1_0000, length: 0x10, mult: 0 },
+                VCap { cap_id: 9, cap_len: 16, cfg_type: 1, bar: 2, offset: 0xfc8, length: 0x38, mult: 0, idpad: 0 },
+                VCap { cap_id: 9, cap_len: 20, cfg_type: 2, bar: 4, offset: 0xffff_f000, length: 0x1000, mult: 0x100, idpad: 0 },
+                VCap { cap_id: 9, cap_len: 16, cfg_type: 3, bar: 2, offset: 0x7, length: 1, mult: 0, idpad: 0 },
+                VCap { cap_id: 9, cap_len: 16, cfg_type: 4, bar: 4, offset: 0x1_0000, length: 0x10, mult: 0, idpad: 0 },
             ],
         ),
         (good_bars(), vec![base[0], VCap { mult: 0, ..base[1] }, base[2], base[3]]),
